@@ -298,6 +298,10 @@ func TestVerif_C15(t *testing.T) {
 					continue
 				}
 				xin := d.assets[0]
+				// the funding deposit counts towards the XIN capacity like the driver's own deposits
+				if !d.reserveXIN(common.KernelNodePledgeAmount) {
+					continue
+				}
 				owner := d.w.Addrs[0]
 				spec := verifgen.OutSpec{Type: common.OutputTypeScript, Owners: []common.Address{owner}, Threshold: 1, Amount: common.KernelNodePledgeAmount, Seed: d.w.Seed()}
 				dep := verifgen.Deposit(d.w.Custodian, xin.Id, xin.Chain, xin.Key, fmt.Sprintf("0xc15-pledge-%d", step), 0, common.KernelNodePledgeAmount, spec)
@@ -327,6 +331,9 @@ func TestVerif_C15(t *testing.T) {
 				if !verifSDLone(b.Kind) {
 					members = append(members, b.Tx)
 				}
+			}
+			if len(members) >= common.SnapshotTransactionsMaximum { // room for the extra member (a snapshot carries at most 255)
+				members = members[:common.SnapshotTransactionsMaximum-1]
 			}
 			pos := rng.Intn(len(members) + 1)
 			members = append(members[:pos], append([]*common.VersionedTransaction{bad}, members[pos:]...)...)
